@@ -249,13 +249,23 @@ LongListPolicies(ns, cs) ==
                          [names |-> <<>>, conds |-> [j \in 1..Len(sh) |-> Entry(NSys - 2, sh[j])] \o <<Entry(NSys - 1, <<DC(5, o, 7)>>)>>, act |-> "errno"] >>) :
             n \in ns, sh \in LongListShapes(c), o \in {"NotEqual", "Equal"}, d \in {"allow", "errno"}} : c \in cs}
 
+\* unconditional names and conditional entries in ONE group (C03), the conditional syscalls numbered below and above all the names
+\* of their group (in the identity concretisation): n names 10..10+n-1, entries for 3 and NSys-2, a later group repeating them
+MixLists == {<<DC(0, "Equal", 1)>>, <<DC(1, "Equal", 2), DC(0, "GreaterThan", 0)>>}
+MixPolicies ==
+  {Mk(d, x, << [names |-> IdxRange(10, 10 + n - 1),
+                conds |-> IF sw THEN <<Entry(3, l1), Entry(NSys - 2, l2)>> ELSE <<Entry(NSys - 2, l2), Entry(3, l1)>>,
+                act |-> "errno"],
+               LG(<<3, NSys - 2, 10>>, "trap") >>) :
+     d \in {"allow", "kill_process"}, x \in {TRUE, FALSE}, n \in {1, 7, 8, 9, 16, 64}, l1 \in MixLists, l2 \in MixLists, sw \in BOOLEAN}
+
 \* the kernel's limit (C07: every defect-free policy that fits 4096 instructions is accepted): 993 single-condition lists
 \* for one syscall (4 instructions each) in one group plus n names in a second group put the program size at 4090..4101
 LimitPolicies ==
   {Mk("allow", x, << [names |-> <<>>, conds |-> [j \in 1..993 |-> Entry(NSys - 1, EqLists(993, 1)[j])], act |-> "errno"],
                      LG(IdxRange(0, n - 1), "kill_process") >>) : x \in {TRUE}, n \in 90..101}
 
-Explicit(s) == s \in {"defects", "defects2", "long1", "long2", "longconds", "klong", "chain", "deep", "limit", "longdefects", "longops", "longlist", "shortlist"}
+Explicit(s) == s \in {"defects", "defects2", "long1", "long2", "longconds", "klong", "chain", "deep", "limit", "longdefects", "longops", "longlist", "shortlist", "mixgroup"}
 ExplicitPolicies(s) ==
   CASE s = "defects" -> BasePolicies(0) \cup Defective1(0)
     [] s = "defects2" -> BasePolicies(0) \cup Defective1(0) \cup Defective2(0)
@@ -267,6 +277,7 @@ ExplicitPolicies(s) ==
     [] s = "longlist" -> LongListPolicies({0, 200}, {63, 64, 65, 128})
     [] s = "shortlist" -> LongListPolicies({0, 3}, {1, 2, 3, 7})
     [] s = "deep" -> DeepPolicies
+    [] s = "mixgroup" -> MixPolicies
 
 ---------------------------------------------------------------------------
 \* SetToSeq fixes one order; it is exported with the cases
@@ -287,6 +298,8 @@ EventSeq(s) ==
          \* all six arguments equal to v; v = 1 satisfies the first short list, 2 none of the short ones, 101..228 break the long list at one place
          SetToSeq({Ev(ar, nr, [a \in 0..5 |-> v]) : ar \in {"own", "other"}, nr \in {0, NSys - 2, NSys - 1, NSys}, v \in {0, 1, 2, 7, 8, 51, 101, 106, 112, 163, 164, 165, 228, 251}}
                   \cup {Ev(ar, NSys - 2, [a \in 0..5 |-> IF a = 0 THEN 251 ELSE IF a = 1 THEN 2 ELSE v]) : ar \in {"own"}, v \in {0, 103, 200}})
+    [] s = "mixgroup" ->
+         SetToSeq({Ev(ar, nr, [a \in 0..5 |-> v]) : ar \in {"own", "other"}, nr \in {0, 3, 10, 16, 17, 18, 25, 73, 74, NSys - 2, NSys - 1, NSys, X32Bit + 3}, v \in {0, 1, 2}})
     [] s = "limit" ->
          SetToSeq({Ev(ar, nr, [a \in 0..5 |-> v]) : ar \in {"own", "other"}, nr \in {0, 89, 90, 95, 101, NSys - 1, NSys, X32Bit + 1}, v \in {0, 2, 500, 994, 995}})
     [] s = "single" ->
